@@ -6,13 +6,14 @@
 //
 // One source, several translation units: props/registry.d/C04.json builds this file several times with -DC04_PART=<n>
 // (a TU with all 40 configurations would take minutes to compile); every part instantiates a slice of the table below.
-//   part 0: char x {0,1,7,15}       part 1: char x {16,31,255,256}                      (quick + thorough)
+//   part 0: char x {0,1,7,15} + char/ci_traits x 16   part 1: char x {16,31,255,256} + char/ci_traits x 7   (quick + thorough)
 //   parts 2..5: wchar_t / char8_t / char16_t / char32_t x {7,15,16}                       (quick only)
 //   parts 6..9: wchar_t / char8_t / char16_t / char32_t x all eight capacities            (thorough only)
 // so each tier builds six translation units.
 // The registry also passes -O0: 87 % of the compile time of this file is optimisation + code generation of the
 // sanitizer-instrumented instantiations, and -O0 halves it (the run time of the harness is small either way).
-// The configuration id inside a case (OpsCase::cfg) is global: cfg = 8*char_index + capacity_index.
+// The configuration id inside a case (OpsCase::cfg) is global: cfg = 8*char_index + capacity_index; char_index 5 is char with
+// the user-supplied case-insensitive traits (etl string and std model both instantiated with c04::ci_traits).
 #include <etl/cstring.hpp> // before string.hpp: replace(pos,n,cstr) calls an unqualified strlen that is only visible this way
 #include <etl/string.hpp>
 #include <etl/string_view.hpp>
@@ -47,10 +48,10 @@ struct Result {
 };
 using RunFn = Result (*)(OpsCase const&, int);
 
-template <typename Char, std::size_t N>
+template <typename Char, std::size_t N, typename Tr = void>
 auto run_cfg(OpsCase const& k, int stats) -> Result
 {
-    auto r = std::make_unique<c04::Run<Char, N>>();
+    auto r = std::make_unique<c04::Run<Char, N, Tr>>();
     Result res;
     res.detail     = r->run(k, stats);
     res.nontrivial = r->nontrivial();
@@ -58,7 +59,7 @@ auto run_cfg(OpsCase const& k, int stats) -> Result
 }
 
 constexpr std::size_t caps[8]            = {0, 1, 7, 15, 16, 31, 255, 256};
-constexpr char const* const char_names[5] = {"char", "wchar_t", "char8_t", "char16_t", "char32_t"};
+constexpr char const* const char_names[6] = {"char", "wchar_t", "char8_t", "char16_t", "char32_t", "char/ci_traits"};
 
 // capacities {7,15,16} of one character type (quick) / all eight capacities (thorough)
 template <typename Char, bool MidSet>
@@ -89,7 +90,7 @@ auto pick_cap(std::uint32_t ci) -> RunFn
 // the slice of the 5 x 8 table this translation unit instantiates
 auto runner(std::uint32_t cfg) -> RunFn
 {
-    auto chi = (cfg / 8) % 5;
+    auto chi = (cfg / 8) % 6;
     auto ci  = cfg % 8;
     (void)chi;
     (void)ci;
@@ -103,6 +104,7 @@ auto runner(std::uint32_t cfg) -> RunFn
         default: return nullptr;
         }
     }
+    if (chi == 5 && ci == 4) { return &run_cfg<char, 16, c04::ci_traits>; }
 #elif C04_PART == 1
     if (chi == 0) {
         switch (ci) {
@@ -113,6 +115,7 @@ auto runner(std::uint32_t cfg) -> RunFn
         default: return nullptr;
         }
     }
+    if (chi == 5 && ci == 2) { return &run_cfg<char, 7, c04::ci_traits>; }
 #elif C04_PART == 2
     if (chi == 1) { return pick_cap<wchar_t, true>(ci); }
 #elif C04_PART == 3
@@ -132,13 +135,16 @@ auto runner(std::uint32_t cfg) -> RunFn
 #elif C04_PART == 100 // development build only: two configurations
     if (chi == 0 && ci == 2) { return &run_cfg<char, 7>; }
     if (chi == 0 && ci == 4) { return &run_cfg<char, 16>; }
+#elif C04_PART == 101 // development build only: the user-supplied-traits configurations
+    if (chi == 5 && ci == 2) { return &run_cfg<char, 7, c04::ci_traits>; }
+    if (chi == 5 && ci == 4) { return &run_cfg<char, 16, c04::ci_traits>; }
 #endif
     return nullptr;
 }
 
 auto cfg_name(std::uint32_t cfg) -> std::string
 {
-    return std::string("basic_inplace_string<") + char_names[(cfg / 8) % 5] + "," + std::to_string(caps[cfg % 8]) + ">";
+    return std::string("basic_inplace_string<") + char_names[(cfg / 8) % 6] + "," + std::to_string(caps[cfg % 8]) + ">";
 }
 
 auto run_case(OpsCase const& k, int stats) -> Result
@@ -162,7 +168,7 @@ auto describe(OpsCase const& k) -> std::string
 void vf_run(vf::Ctx& c)
 {
     std::vector<std::uint32_t> cfgs;
-    for (std::uint32_t cfg = 0; cfg < 40; ++cfg) {
+    for (std::uint32_t cfg = 0; cfg < 48; ++cfg) {
         if (runner(cfg) != nullptr) { cfgs.push_back(cfg); }
     }
 
@@ -171,7 +177,7 @@ void vf_run(vf::Ctx& c)
     for (auto cfg : cfgs) {
         auto cap = caps[cfg % 8];
         if (cap > 16) { continue; }
-        if (!c.thorough() && cfg >= 8 && cap != 15) { continue; } // quick: the non-char types enumerate the full-tiny-layout capacity only
+        if (!c.thorough() && cfg >= 8 && cfg < 40 && cap != 15) { continue; } // quick: the non-char types enumerate the full-tiny-layout capacity only
         int depth = (c.thorough() && cap <= 1 && cfg < 8) ? 3 : 2; // depth 3: char only (12 M cases), the budget does not allow it five times
         std::vector<RawOp> alpha;
         for (std::uint32_t code = 0; code < NCODES; ++code) {
